@@ -212,6 +212,39 @@ class Check(Property):
             logging_disable(0)
         return v
 
+    def case_insensitive_probe(self):
+        """a registry asked to ignore letter case in UNIT spellings still reads an exactly written prefixed symbol by its written
+        prefix: MW is mega, mW is milli, PJ peta, pJ pico - the same factor as the case-sensitive registry gives"""
+        import pint
+        v = []
+        __import__("logging").disable(50)
+        try:
+            ci = pint.UnitRegistry(case_sensitive=False)
+            cs = regs.ureg("float")
+            for unit in ("W", "Hz", "Pa", "J", "m", "s", "g", "V"):
+                for pre in ("M", "m", "k", "G", "P", "p", "T", "Y", "y", "Z", "z", "E", "n", "h", "c", "d", "da", "µ", "f", "a"):
+                    sym = pre + unit
+                    try:
+                        want = cs.convert(1.0, sym, unit)
+                    except Exception:  # noqa: BLE001
+                        continue
+                    try:
+                        got = ci.convert(1.0, sym, unit)
+                    except Exception as exc:  # noqa: BLE001
+                        got = type(exc).__name__
+                    if got != want:
+                        known = ""
+                        try:
+                            other = ci.get_name(sym)
+                            if other != cs.get_name(sym) and other.lower() != cs.get_name(sym).lower() and other in cs._units:
+                                known = f" [known finding F90] (read as {other}, a case variant of another unit's symbol)"
+                        except Exception:  # noqa: BLE001
+                            pass
+                        v.append(f"C02 case-insensitive registry: 1 {sym} -> {unit} = {got}, the written prefix gives {want}{known}")
+        finally:
+            __import__("logging").disable(0)
+        return v
+
     def oracle(self, c):
         P = regs.pools()
         proj = P.proj
@@ -219,6 +252,7 @@ class Check(Property):
         if not getattr(self, "_written_probe_done", False):
             self._written_probe_done = True
             v += self.written_definitions_probe()
+            v += self.case_insensitive_probe()
         a, b, cc = uc_dict(c["a"]), uc_dict(c["b"]), uc_dict(c["c"])
         try:
             fa, ba = proj.root(a)
